@@ -185,6 +185,46 @@ def h_owner_leaves(ex, dll, how, aac=False):
     ex.witness()
 
 
+def h_mpg_rx(ex, cas, listeners, order):
+    """J1939-22: one multi-PG frame with two contained groups to a symbolic destination.  order: kinds of the two groups
+    ('pdu1' | 'pdu2').  Every PDU1 group reaches exactly the listeners bound to the frame's destination (all of them for a
+    global frame); a PDU2 group reaches at least those (PDU2 has no destination: who else may see it is not claimed)"""
+    w = W.World(ex, mode='interleave')
+    n, Ls = build(ex, w, 'j1939-22', cas, listeners)
+    base = len(w.log)
+    D = ex.fresh_int('dest', 0, 255)
+    prio = ex.fresh_int('prio', 0, 7)
+    groups = []
+    for i, kind in enumerate(order):
+        dp = ex.fresh_int('g%d_dp' % i, 0, 1)
+        if kind == 'pdu2':
+            pf = ex.fresh_int('g%d_pf' % i, 240, 255)
+            ps = ex.fresh_int('g%d_ge' % i, 0, 255)
+        else:
+            pf = ex.fresh_int('g%d_pf' % i, 0, 239)
+            for p_ in PROTOCOL_PF_FD:
+                ex.assume(pf != p_)
+            ps = 0
+        groups.append((kind, dp * 65536 + pf * 256 + ps, sym_payload(ex, 'g%d_b' % i, 3 + 2 * i)))
+    w.inject(n, tp21.can_id(prio, tp22.PF_MPG, D, SRC), tp22.mpg_frame([(c, p_) for k, c, p_ in groups]), fd=True)
+    w.run(until=w.now + T('1/100'))
+    for l in Ls:
+        ent = entitled(l, Ls, D)
+        for i, (kind, cpgn, payload) in enumerate(groups):
+            mine = [m for m in l.got if len(m[3]) == len(payload)]
+            info = {'listener': l.name(), 'group': i, 'kind': kind, 'order': order, 'got': len(mine)}
+            if mine:
+                if kind == 'pdu1':
+                    ex.claim('mpg_rx.delivered_only_to_entitled', ent, info)
+                ex.claim('mpg_rx.delivered_once', len(mine) == 1, info)
+                pr, pgn, sa, d = mine[0]
+                ex.claim('mpg_rx.delivered_intact', sym_and(sa == SRC, sym_eq_seq(d, payload), pgn == cpgn), info)
+            else:
+                ex.claim('mpg_rx.entitled_listener_receives', sym_not(ent), info)
+    ex.claim('mpg_rx.no_frame_transmitted', len(w.log) == base, {'frames': len(w.log) - base})
+    ex.witness()
+
+
 def h_foreign_tp(ex, dll, cas, listeners, kind):
     """a transport-protocol frame (symbolic control byte and fields) to a symbolic destination.
     If nobody on this stack owns the destination: no delivery, no frame, no lasting state."""
@@ -273,6 +313,9 @@ def jobs(tier):
     for flags in [(e, r, x) for e in (True, False) for r in (True, False) for x in (True, False)]:
         out.append(Job('C05', 'c05:h_single', {'dll': 'j1939-21', 'cas': CFGS[1][0], 'listeners': CFGS[1][1], 'via': 'listener', 'flags': list(flags)}, W=40, wall=120, validate=1))
         out.append(Job('C05', 'c05:h_single', {'dll': 'j1939-21', 'cas': CFGS[1][0], 'listeners': CFGS[1][1], 'via': 'listener', 'flags': list(flags), 'pdu2': True}, W=40, wall=120, validate=1))
+    for cas, ls in (CFGS[1], CFGS[2], CFGS[4], CFGS[8]):
+        for order in (['pdu1', 'pdu1'], ['pdu2', 'pdu1'], ['pdu1', 'pdu2']):
+            out.append(Job('C05', 'c05:h_mpg_rx', {'cas': cas, 'listeners': ls, 'order': order}, W=40, wall=120, validate=1))
     for dll in dlls:
         out.append(Job('C05', 'c05:h_owner_leaves', {'dll': dll, 'how': 'ca_loses'}, W=40, wall=120, validate=1))
         out.append(Job('C05', 'c05:h_owner_leaves', {'dll': dll, 'how': 'ca_loses', 'aac': True}, W=40, wall=120, validate=1))
@@ -320,6 +363,7 @@ def meta(tier):
                    'foreign TP.CM / TP.DT (FD: FD.TP.CM / FD.TP.DT / multi-PG) with all data bytes symbolic (every control byte, size, packet, sequence field) to every unowned destination; then 6 s of silence and a follow-up RTS',
                    'can.Message flag combinations (extended, remote, error) through the real MessageListener (concrete data bytes)',
                    'bystander observing a complete foreign 3-packet RTS/CTS session with symbolic payload',
+                   'J1939-22: multi-PG frames with two contained groups (PDU1 / PDU2 in both orders, PGNs and data symbolic) to every destination',
                    'owner of the destination address leaves in the middle of an inbound 3-packet session (CA loses the address to a contender, fixed or arbitrary-address-capable; ECU-level listener unsubscribed): later packets get no reply, nothing is delivered',
                    'source address 0x42'],
         'outside': ['source addresses other than 0x42'],
